@@ -602,6 +602,10 @@ class Discharger:
         t = s.extra["term"]
         conds = dom_conditions(mir, s.bi, S) + list(s.extra.get("extra_conds", ()))
         conds = conds + self.callee_facts(conds)
+        # the idioms below recognise library functions by name (`len`, `is_empty`, `position`, `ends_with` ...): a *workspace*
+        # function that happens to carry such a name has no contract - what it guarantees comes from its body (the callee
+        # summaries just computed), never from what it is called (seed C01-J rewrote a helper called ends_with_...)
+        conds = [(_mask_workspace_calls(e), v, d) for e, v, d in conds]
         r = self.arith_discharge(s, S, t, conds)
         if r:
             return r
@@ -641,7 +645,7 @@ class Discharger:
                     la3 = is_len_of(a)
                     if la3 is not None:
                         for c, v, _ in conds:
-                            if c[0] == "call" and "ends_with" in c[1].split("::")[-1] and v is True and sym.norm(c[3][0]) == sym.norm(la3) and c[3][1][0] == "bytes" and len(c[3][1][1]) >= b[1]:
+                            if c[0] == "call" and c[1].split("::")[-1] == "ends_with" and c[1].startswith("core::") and v is True and sym.norm(c[3][0]) == sym.norm(la3) and c[3][1][0] == "bytes" and len(c[3][1][1]) >= b[1]:
                                 return "guard: the slice ends with a %d-byte literal (%r), so its length >= %d" % (len(c[3][1][1]), c[3][1][1], b[1])
                 # non-empty because a position was found in it
                 la4 = is_len_of(a)
@@ -1319,3 +1323,18 @@ def _find_call(e, short):
 
 def _same_slice(a, b):
     return sym.norm(a) == sym.norm(b)
+
+
+_WS = ("scpi::", "scpi_contrib::", "scpi_derive::", "<scpi", "<parser::", "<error::", "<tree::", "parser::", "error::", "tree::")
+_CONTRACT_NAMES = {"len", "is_empty", "ends_with", "starts_with", "position", "rposition", "is_full", "first", "last", "split_first", "split_last", "get", "get_mut", "count", "split", "to_ascii_lowercase", "map_or",
+                   "is_err", "is_ok", "try_push", "parse_partial", "parse_partial_with_options", "as_slice", "next", "nth", "clone", "checked_sub", "saturating_sub", "take_while", "iter", "into_iter", "from", "into",
+                   "branch", "filter", "inspect", "pop", "remaining_capacity", "capacity", "first_mut", "last_mut", "as_bytes", "deref", "as_ref"}
+
+
+def _mask_workspace_calls(e):
+    if not isinstance(e, tuple) or not e or not isinstance(e[0], str):
+        return e
+    if e[0] == "call" and len(e) >= 4 and isinstance(e[1], str) and e[1].split("::")[-1] in _CONTRACT_NAMES and \
+            (e[1].startswith(_WS) or (isinstance(e[2], str) and e[2].startswith(_WS) and not e[2].startswith("<") )):
+        return ("call", e[1] + "#workspace", (e[2] + "#workspace") if isinstance(e[2], str) else e[2], tuple(_mask_workspace_calls(a) for a in e[3])) + tuple(e[4:])
+    return tuple(_mask_workspace_calls(x) if isinstance(x, tuple) else x for x in e)
